@@ -194,7 +194,7 @@ def rule_iter_mut_for_each(body, applied):
         recv = body[rs:m.start()].strip()
         # B mentions var as receiver: VAR.method(args) -> RECV[idx].method(args)
         cb2 = re.sub(r'\b' + re.escape(var) + r'\b', '%s[idx_m%d]' % (recv, k), cb)
-        loop = ('{ let mut idx_m%d: usize = 0;\nwhile idx_m%d < %s.len() {\n%s;\nidx_m%d += 1;\n}\n}'
+        loop = ('let mut idx_m%d: usize = 0;\nwhile idx_m%d < %s.len() {\n%s;\nidx_m%d += 1;\n}\n'
                 % (k, k, recv, cb2, k))
         body = body[:rs] + loop + body[pclose + 1:]
         applied.append({'rule': 'R6', 'receiver': recv, 'closure_param': var,
@@ -218,10 +218,36 @@ def rule_for_over_vec(body, applied):
         ob = mm.end() - 1
         cb = match_close(m, ob)
         place = expr.lstrip('&').strip()
-        hdr = '{ let mut idx_f%d: usize = 0; while idx_f%d < %s.len() {' % (k, k, place)
+        hdr = 'let mut idx_f%d: usize = 0; while idx_f%d < %s.len() {' % (k, k, place)
         first = ' let %s = &%s[idx_f%d]; idx_f%d += 1;' % (pat, place, k, k)
-        body = body[:mm.start()] + hdr + first + body[ob + 1:cb + 1] + ' }' + body[cb + 1:]
+        body = body[:mm.start()] + hdr + first + body[ob + 1:cb + 1] + body[cb + 1:]
         applied.append({'rule': 'R11', 'pattern': 'for %s in %s' % (pat, expr)})
+        pos = mm.start() + len(hdr)
+        k += 1
+    return body
+
+
+def rule_for_range_with_continue(body, applied):
+    """R13: `for i in A..B { ..continue.. }` (Verus' for-loops do not support `continue`)
+    -> `{ let mut idx_rK = A; let end_rK = B; while idx_rK < end_rK { let i = idx_rK; idx_rK += 1; ... } }`."""
+    k = 0
+    pos = 0
+    while True:
+        m, _ = mask(body)
+        mm = re.compile(r'\bfor\s+([A-Za-z_][A-Za-z0-9_]*)\s+in\s+([^{};]*?)\.\.([^{};=]*?)\s*\{').search(m, pos)
+        if not mm:
+            break
+        ob = mm.end() - 1
+        cb = match_close(m, ob)
+        inner = m[ob:cb]
+        if not re.search(r'\bcontinue\b', inner):
+            pos = mm.end()
+            continue
+        var, lo, hi = mm.group(1), body[mm.start(2):mm.end(2)].strip(), body[mm.start(3):mm.end(3)].strip()
+        hdr = 'let mut idx_r%d = %s; let end_r%d = %s; while idx_r%d < end_r%d {' % (k, lo, k, hi, k, k)
+        first = ' let %s = idx_r%d; idx_r%d += 1;' % (var, k, k)
+        body = body[:mm.start()] + hdr + first + body[ob + 1:cb + 1] + body[cb + 1:]
+        applied.append({'rule': 'R13', 'pattern': 'for %s in %s..%s with continue' % (var, lo, hi)})
         pos = mm.start() + len(hdr)
         k += 1
     return body
@@ -462,7 +488,13 @@ def extract_type(kind, name, relpath, opts, info):
             out.append('impl Clone for %s { #[verifier::external_body] fn clone(&self) -> (r: Self) ensures r == *self { unimplemented!() } }' % name)
             info['assumptions'].append('derive(Clone) on %s is structural (r == *self)' % name)
         if 'default' in opts:
-            pass
+            if 'Default' not in derives:
+                raise GenError('struct %s: template asks for derived Default but source derives %s' % (name, derives))
+            mm = re.search(r'\(\s*pub\s+Vec<[^()]*>\s*\)', decl)
+            if not mm:
+                raise GenError('struct %s: derived Default only supported for a single Vec tuple field' % name)
+            out.append('impl Default for %s { #[verifier::external_body] fn default() -> (r: Self) ensures r.0@.len() == 0 { unimplemented!() } }' % name)
+            info['assumptions'].append('derive(Default) on %s yields the empty Vec' % name)
     else:
         want = [d for d in ('Clone', 'Copy', 'PartialEq', 'Eq') if d in derives and d.lower() in opts]
         if 'clonespec' in opts:
@@ -550,6 +582,7 @@ def emit_fn(contract, verified, info):
     body = rule_iter_mut_for_each(body, applied)
     body = rule_iter_chains(body, applied)
     body = rule_for_over_vec(body, applied)
+    body = rule_for_range_with_continue(body, applied)
     body, nloops = splice(body, contract, applied)
     rec['rewrites'] = applied
     rec['loops'] = nloops
@@ -663,5 +696,6 @@ def enum_table(name, relpath, fname, info):
             '    #[verifier::external_body] pub fn from_u8(b: u8) -> (r: Option<%s>) ensures match r { Some(c) => c as u8 == b && %s::valid_disc_from_u8(b as int), None => !%s::valid_disc_from_u8(b as int) } { unimplemented!() }\n'
             '    #[verifier::external_body] pub fn to_u8(&self) -> (r: Option<u8>) ensures r == Some(*self as u8) { unimplemented!() }\n'
             '    #[verifier::external_body] pub fn to_u32(&self) -> (r: Option<u32>) ensures r == Some((*self as u8) as u32) { unimplemented!() }\n'
+            '    #[verifier::external_body] pub fn ge(&self, other: &Self) -> (r: bool) ensures r == ((*self as u8) >= (*other as u8)) { unimplemented!() }\n'
             '    #[verifier::external_body] pub fn to_i32(&self) -> (r: Option<i32>) ensures r == Some((*self as u8) as i32) { unimplemented!() }\n'
             '}\n' % (name, arms, name, name, name))
